@@ -152,6 +152,19 @@ PROPS = {
         "correspondence": "real Solver::solve (SLG, recursive) vs Sem contract on horn_assoc(program)",
         "explanation": "translation validation of solver answers by a certified checker",
     },
+    "C28": {
+        "level": "translation_validation",
+        "rule": "every goal of every program block of /repo/tests/test/*.rs (types, lifetimes and constants as unknowns, nested forall, associated types, built-ins ...) plus 100 generated "
+                "programs x 5 goals with unknowns (one under an extra forall): the Unique / definite / suggested substitution of each solver and up to 6 answers enumerated by "
+                "SLG solve_multiple; each judged by WfAnswer.wfAnswer in Lean and actually applied to the query in Rust under catch_unwind; child-process shards; non-trivial = non-empty substitution",
+        "technique": "certified checker: Lean 4 predicate wfAnswer with theorem wfAnswer_apply_ok (application cannot panic, proved over the exact model of SubstFolder) evaluated on every returned solution",
+        "claim": "wfAnswer_apply_ok/_wc, wfAnswer_arity, wfAnswer_closed: an accepted answer has one entry per query unknown of the right kind, refers only to its own binders, each in a universe "
+                 "the query can name, has no inference variables, and applying it to any query term cannot hit any panic of Substitution::apply. Every solution produced in the run is judged.",
+        "note": "Trusted: Lean kernel, wire serialiser, model fidelity of applyFolder (tied by C17's with-priorities correspondence). Binders used only by region constraints are not "
+                "restricted to the query's universes (the property speaks of the substitution). Skipped (counted): recursive solver on known-divergent inputs (F12, F18), enumeration on programs with negative clauses.",
+        "correspondence": "real solver outputs (solve, solve_multiple) vs WfAnswer.wfAnswer; real Substitution::apply under catch_unwind",
+        "explanation": "certified validation of every returned solution",
+    },
     "C13": {
         "level": "proof",
         "rule": "100 generated Horn-fragment programs (no growing-type impls: searches stay within the size limits) x 5 goals (2 closed, 3 with unknowns) x 6 (thorough 24) "
@@ -230,6 +243,52 @@ PROPS = {
         "correspondence": "Coherence model (lean/ChalkModel/Coherence.lean: visit, buildForest, setPriorities, specializationPriorities) vs "
                           "chalk-solve coherence.rs / coherence/solve.rs CoherenceSolver::specialization_priorities",
     },
+    "C24": {
+        "level": "proof",
+        "rule": "three input streams through the real parse_program / parse_goal / ChalkDatabase::program_ir / lower_goal, every call under "
+                "catch_unwind with a hook recording the panic location: (a) 20000 (thorough 500000) byte strings: random bytes, random "
+                "ASCII/UTF-8, and mutants (bit flips, truncations, duplicated/deleted/spliced chunks) of the ~490 program{..} / ~900 goal{..} "
+                "blocks extracted at run time from /repo/tests/test/*.rs and tests/lowering/*.rs; (b) 20000 (500000) token strings over the "
+                "terminals collected from parser.lalrpop plus sample identifiers/lifetimes/integers (incl. 4294967296): random sequences "
+                "and seed token sequences with 1-3 tokens deleted/inserted/swapped/replaced; (c) 2000 (50000) programs x 3 goals from a "
+                "grammar of the harness's own (struct/enum, trait with associated types, impl, extern type, opaque type, fn, closure, "
+                "coroutine, custom clause; all type forms; all goal forms) in which each choice is made 'correctly' only with probability "
+                "80-100%: otherwise a name of ANY sort (trait/extern/opaque/fn/closure/assoc/parameter/unknown, Self, __FIXME_SELF__) applied "
+                "or not to arguments of arbitrary number and kind, duplicate/shadowing parameters and items, values for undeclared "
+                "associated types, wrong variance counts, unknown ABIs, auto traits with parameters/where-clauses/associated types. "
+                "For stream (c), for every seed and for the corpus the AST that chalk_parse produced is serialised and the Lean model's "
+                "outcome class (ok / RustIrError variant / panic site, for the program and for the goal) is compared exactly. Deeply "
+                "nested inputs (8 shapes x depths 1000..50000, thorough ..1000000) run in child processes. Non-trivial = model-compared "
+                "case whose outcome is an error; distinct = distinct request lines",
+        "technique": "Lean 4 theorems about an executable model of chalk-integration's lowering in which every unwrap/indexing/panic! is a "
+                     "named panic outcome (invariants of the id/kind/associated-type tables proved by induction over the extraction "
+                     "and item loops; mutual structural induction over the AST) + differential correspondence on the parsed AST + "
+                     "fuzzing of the generated parser (no model) + child processes for stack exhaustion",
+        "claim": "lower_no_panic and lower_goal_no_panic are proved at full strength for the code as repaired: for EVERY program AST, "
+                 "Program::lower ends in Ok or a RustIrError, and for every goal AST against every successfully lowered program so "
+                 "does lower_goal; none of the 16 modelled panic sites (table in Resolve.lean) is reachable. The same statements are "
+                 "refuted by machine-checked witnesses for the code before the repairs (legacy_panics_F6_goal/_field/_foreign, "
+                 "legacy_panics_F6b). The model is compared with the real code on every run (0 disagreements over ~3800 quick / "
+                 "~67000 thorough cases covering all 19 RustIrError variants). PARTIAL for the LALRPOP-generated parser and lexer: no "
+                 "executable model exists, only the byte/token fuzz streams cover them (they found F6c). PARTIAL for native stack "
+                 "exhaustion: outside the model, open finding F6d.",
+        "note": "Panic sites (file:line -> reachable?): lowering.rs:445/446 args[0]/assert_ty_ref (no: grammar always puts the self type "
+                "first); lowering.rs:760 panic!(Unexpected apply type) (YES = F6, fixed c9a5508: NotStruct for a trait name, arity error "
+                "for an extern type); lowering.rs:934 and program_lowerer.rs:335 associated_ty_value_ids[..] (no: inserted by "
+                "extract_associated_types); lowering.rs:1014 lookup_associated_ty().unwrap() and program_lowerer.rs:274 "
+                "associated_ty_lookups[..] (no: same); program_lowerer.rs:336 associated_ty_lookups[(trait, value name)] (YES = F6b, fixed "
+                "82a1542: MissingAssociatedType); lowering.rs:1037/1040 trait_data[..], binders[n..] in lower_goal (no: proved from "
+                "the shape of the lowered program); env.rs:176-212 auto_traits/..._kinds[&id] (no: extract_ids inserts id and kind "
+                "together); program_lowerer.rs:478 coroutine_ids[..] (no); parser.lalrpop ConstValue u32 unwrap (YES = F6c, fixed "
+                "c2a7603: ParseError::User). F6d (open): ~30000 nested types overflow the native stack in the recursive lowering "
+                "(~1e6 in the drop of the AST); the LALR parser itself is iterative. Not small-and-safe to repair (needs a depth "
+                "limit), reported as KNOWN-FINDING with classifier parser_stack_overflow. Regression inputs of all findings in "
+                "corpus/C24. Trusted: Lean kernel, model fidelity (differential only), the AST serialiser conv in c24.rs, the harness.",
+        "correspondence": "Resolve.lowerProgram / lowerGoalTop (lean/ChalkModel/Resolve.lean) vs chalk_integration::lowering::{Lower for Program, "
+                          "lower_goal} on the AST produced by chalk_parse",
+        "assumptions": ["the native stack suffices for the nesting depth of the input (F6d)"],
+        "explanation": "proof for lowering; fuzzing only for the generated parser",
+    },
     "C25": {
         "level": "proof",
         "rule": "type-directed random terms (all 25 TyKind variants, lifetimes/consts of every kind, dyn and fn-pointer binders, "
@@ -287,5 +346,194 @@ PROPS = {
                           "fallible_map_box} through the hook chalk_ir::fold::verif",
         "explanation": "complete enumeration of layouts x lengths x failure positions x failure modes up to the tier's length bound "
                        "(8 quick, 64 thorough); the theorems cover all lengths",
+    },
+    "C14": {
+        "level": "proof",
+        "rule": "one request = a script building a real InferenceTable (0-3 new_universe, 1-8 new_variable in universes 0..3 with kinds "
+                "general/integer/float/lifetime/const, up to 12 history relates executed on the real table while generating so that "
+                "variable numbers are chalk's) + the relate under test. Pairs are derived from a common ancestor (ADTs with declared "
+                "variance tables, tuples, slices, raw pointers, scalars, str, never, foreign, placeholders !0..3_i; streams 2/3 add refs "
+                "with lifetimes from {static, placeholders, lifetime variables, erased, error}, fn pointers with and without binders, "
+                "fn defs, arrays/consts, aliases, closures/coroutines, dyn with well-scoped bounds, error) by replacing subterms with "
+                "declared variables (unifiable 50%), editing one constructor/scalar/mutability/placeholder (40%), or independently (10%); "
+                "70% first-order stream, invariant relation 60%; 1/40 variance tables too short and 1/40 ill-formed terms (bound "
+                "variables, empty fn signature, variable at the wrong sort) for the panic arms; corpus seeds (occurs check, universe "
+                "errors, promotion, integer/float kinds). Non-trivial = the relate failed, returned goals or bound a variable; "
+                "distinct = distinct request lines",
+        "technique": "Lean 4 theorems about an executable arm-by-arm model of InferenceTable::relate / Unifier / OccursCheck on a union-find "
+                     "table model (induction on fuel, mutual structural induction over the syntax, union-find invariants) + differential "
+                     "correspondence (outcome, goals in order, deep-resolved value / root / universe of every variable, max universe) + "
+                     "independent oracles on the real code (Robinson unifier with universe check, brute-force unifier search, "
+                     "resolution equality, table-extension check)",
+        "claim": "For the invariant relation on the first-order fragment Ty.fo (applied names over type arguments: ADTs, tuples, fn defs, closures ...; "
+                 "slices, raw pointers, scalars, str, !, foreign types, placeholders of every universe, general/integer/float variables created in "
+                 "any universe), every union-find-well-formed table of well-kinded first-order values (TableOk: holds for Table.new and is "
+                 "preserved by new_variable, new_universe and by relate itself, hence after ANY history), every fuel: relate_sound (success "
+                 "returns no goals and every solution of the resulting table equates the two types), relate_extends (every solution of the new "
+                 "table is a solution of the old one, bound variables keep their values, classes only merge, no universe is created, the "
+                 "invariants hold again), relate_acyclic (occurs check: under a one-kind-per-variable discipline an acyclic table stays acyclic), "
+                 "ranked_canon (an acyclic table has a solution, its full resolution, so relate_sound is not vacuous) and relate_sound_resolve "
+                 "(from some depth on, fully resolving the two types through the resulting table gives equal types) are theorems about the "
+                 "model. The model is compared with the real InferenceTable::relate on every run (outcome, goals in order, value/root/universe "
+                 "of every variable); on the real code every success is checked by resolution equality and table extension, every failure by an "
+                 "independent Robinson unifier with universe check and by brute-force search of unifiers over closed types of depth <= 2.",
+        "note": "Theorems proved (Props/C14.lean): tableOk_new/_newVariable/_newUniverse, tableOk2_*, relate_unfold, relate_sound, relate_extends, "
+                "relate_acyclic, ranked_canon, relate_sound_resolve — fragment: invariant relation, Ty.fo, well-kinded against an arity table "
+                "(zip_substs truncates argument lists: without arityOk the statement is false, counterexample proved in Lemmas/UnifySound.lean); "
+                "relate_acyclic / relate_sound_resolve additionally need every variable to be written with one kind (false otherwise: ?0:general vs "
+                "?0:integer binds ?0 := ?0; both counterexamples proved in Lemmas/UnifyAcyclic.lean). Stated in DESIGN, not yet a theorem; covered "
+                "differentially only: relate_mgu (most general), relate_complete (failure => no unifier), relate_universe_ok (values only mention "
+                "visible placeholders; promotion), soundness with lifetimes/consts/references/fn pointers/aliases and under the covariant / "
+                "contravariant relation ('up to the returned obligations'), sufficiency of fuel outside the rigid fragment (the driver runs with "
+                "fuel 100000, outOfFuel was never produced). Trusted: Lean kernel, model fidelity (differential only; ena's union-find incl. "
+                "snapshots is modelled from its observable API), harness + its independent unifier.",
+        "correspondence": "relate / relateTy / occTy / generalizeTy (lean/ChalkModel/Unify.lean, Infer.lean) vs chalk_solve::infer::InferenceTable::relate "
+                          "(chalk-solve/src/infer/unify.rs, chalk-ir/src/zip.rs, infer/instantiate.rs) and ena's unification table",
+    },
+    "C15": {
+        "level": "proof",
+        "rule": "same request format and generators as C14 with the mix shifted to failing relates: 40% first-order, 30% with lifetimes / fn "
+                "pointers, 30% everything (consts, aliases, dyn, binders, error); final pair unifiable 27% / edited 36% / lifetimes changed "
+                "9% / both 18% / independent 9%, all three variances uniformly, histories of 0..12 relates, corpus seeds that fail after "
+                "bindings, universe promotions, fresh variables and instantiated binders were made. Non-trivial = the relate failed, returned "
+                "goals or bound a variable; distinct = distinct request lines",
+        "technique": "Lean 4 theorems about the model of InferenceTable::relate with explicit snapshot/rollback_to (all inputs) and about the "
+                     "unifier on the rigid fragment (induction on fuel over the arm order) + differential correspondence + direct evaluation "
+                     "on the real code: every observation re-taken after each failed relate, both argument orders on two clones of the table",
+        "claim": "relate_fail_state / relate_not_ok_state: for ALL tables, variances, types and fuels a relate that does not succeed returns the table it "
+                 "was given as a whole record (the model mirrors snapshot / rollback_to). relate_symm (+ _inv, _co_contra): on the rigid fragment "
+                 "(no inference variables of any sort, no bound variables, aliases, dyn, error type; fn pointers without binders; lifetimes static / "
+                 "placeholder / erased / error; well-kinded; fuel >= depth) success of relate(v, a, b) is equivalent to success of relate(v', b, a) for "
+                 "every pair of variances and every table; relate_symm_goals: the two orders (v / v.invert) return the same obligations up to order; "
+                 "relate_symm_ltvars: the same order-independence of success with LIFETIME variables allowed, on every well-formed table whose "
+                 "lifetime variables are unbound or bound to rigid lifetimes (there the two orders modify the table differently). On the real code "
+                 "every observation (value, root, universe of every variable, max universe) is re-taken after each failed relate and must be "
+                 "unchanged, and every pair is related in both orders on two clones of the table.",
+        "note": "Theorems proved (Props/C15.lean): relate_fail_state, relate_not_ok_state (all inputs); relate_symm, relate_symm_inv, relate_symm_co_contra, "
+                "relate_symm_goals (fragment Ty.rigid), relate_symm_ltvars (fragment Ty.rigidT). Stated in DESIGN, not yet a theorem; covered "
+                "differentially only: order-independence with TYPE / CONST inference variables, aliases, binders, dyn (the two orders take different "
+                "paths through the union-find). ena's rollback is external code: assumed to restore the union-find (the model's rollbackTo returns "
+                "the snapshot), validated by the re-taken observations. Known finding F17 (open): with TyKind::Error in play the order does change "
+                "success under relate_binders (dyn / for<> fn): `error` relates to everything but only once a variable has been resolved to it; outside "
+                "the constructors the property names. Trusted: Lean kernel, model fidelity (differential), harness.",
+        "correspondence": "relate (lean/ChalkModel/Unify.lean) incl. Table.snapshot/rollbackTo (Infer.lean) vs InferenceTable::relate / snapshot / "
+                          "rollback_to / commit (chalk-solve/src/infer.rs, infer/unify.rs) and ena's snapshots",
+    },
+    "C29": {
+        "level": "proof",
+        "rule": "same request format as C14; 80% of the cases are pairs of types without type/const variables built over refs (&, &mut), raw "
+                "pointers, slices, tuples, fn pointers (no binders), ADTs and fn defs with lifetime and type parameters and random declared "
+                "variance tables, where the second type is the first with 2/3 of its lifetimes redrawn from {static, placeholders of universes "
+                "0..3, lifetime variables (half of the cases), erased, error} (70%), identical (10%), edited in one constructor (10%), both "
+                "(10%); all three variances; 20% from the full C14 generator; histories 0..2 (rigid stream) or 0..12. Non-trivial = the relate "
+                "failed or returned goals; distinct = distinct request lines",
+        "technique": "Lean 4 theorems (algebra of Variance by cases; the unifier on the rigid fragment = an independently written variance "
+                     "specification, by induction on fuel and on the syntax) + differential correspondence + an oracle written from the "
+                     "variance rules in Rust evaluated on the real relate (multiset equality of outlives goals; with lifetime variables: "
+                     "equivalence after applying the bindings the unifier made, every binding must be forced by the rules)",
+        "claim": "xform_assoc, xform_comm, xform_invert, xform_co, xform_inv, invert_invert, invert_eq_xform_contra: the algebra of Variance (total). "
+                 "relate_variance_struct: on the rigid fragment, for every table, variance and fuel >= depth, relate succeeds exactly when the two types "
+                 "are equal after erasing lifetimes, then leaves the table untouched, and otherwise answers NoSolution (never a panic); "
+                 "relate_variance_struct_ltvars: the same success criterion with lifetime inference variables allowed (no type/const variables); "
+                 "relate_variance_constraints: on the rigid fragment the returned goals are EXACTLY (as a list) the outlives constraints of the "
+                 "specification subConstraints, written from the variance rules (covariant position b: a, contravariant a: b, invariant both; &'a T "
+                 "contravariant in 'a in chalk's orientation, i.e. &'a T <: &'b T demands 'a: 'b; &mut / *mut invariant in T; fn parameters "
+                 "contravariant, result covariant, equality of fn pointers = two subtypings; ADT / fn-def parameters by declared variance composed "
+                 "with xform; equal and error lifetimes impose nothing); subConstraints_swap: swapping the types and inverting the variance gives "
+                 "the same constraints up to order. The same specification, written independently in Rust, is compared with the goals of the real "
+                 "relate on every run (multiset equality; with lifetime variables: equivalence after applying the bindings, every binding must be forced).",
+        "note": "Theorems proved (Props/C29.lean): the seven algebra theorems (all Variances); relate_variance_struct, relate_variance_constraints, "
+                "subConstraints_swap, subConstraints_self (fragment Ty.rigid, well-kinded: zip_substs does not compare argument-list lengths); "
+                "relate_variance_struct_ltvars (fragment Ty.rigidT). Goal lists are compared as lists. Stated in DESIGN, not yet a theorem; covered "
+                "differentially only: the constraints when lifetimes are inference variables or when type variables are generalized "
+                "(relate_variance_constraints_gen), binders (for<> fn pointers, dyn), and the solver-level Subtype(A,B) comparison. Known finding F16 "
+                "(open): two lifetime VARIABLES related in a covariant/contravariant position are unified (made equal) although the variance only "
+                "dictates one outlives obligation; at solver level `exists<'a,'b> { Subtype(&'a T, &'b T) }` is answered Unique with 'a = 'b, and "
+                "conjunctions give order-dependent, over-strong lifetime constraints. Note on orientation: a declared Covariant LIFETIME parameter "
+                "demands 'b: 'a for Foo<'a> <: Foo<'b> (chalk's own test struct_lifetime_variance blesses this), the opposite of rustc's reading; the "
+                "specification follows chalk's orientation. Trusted: Lean kernel, model fidelity (differential), harness + its Rust oracle.",
+        "correspondence": "relate, Variance.xform/invert (lean/ChalkModel/Unify.lean, Variance.lean) vs InferenceTable::relate, Zipper::zip_substs, "
+                          "Zip for FnSubst/DynTy, Variance::{xform, invert} (chalk-solve/src/infer/unify.rs, chalk-ir/src/zip.rs, chalk-ir/src/lib.rs)",
+    },
+    "C20": {
+        "level": "proof",
+        "rule": "one .chalk program per case: a fixed prelude (structs L0, L1<T> local; U0, U1<T>, U2<T,U> #[upstream]; F1<T>, F2<T,U> #[upstream] "
+                "#[fundamental]; LF1<T> local #[fundamental]; traits LT0..LT2 local, UT0..UT2 #[upstream]) plus ONE impl with 1-3 type arguments (Self first). "
+                "Tables (exhaustive=true in the thorough tier): remote trait with 1 argument over all 2705 types of depth <= 2, with 2 and with 3 "
+                "arguments over all types of depth <= 1 (50^2, 50^3), built from leaves L0, U0, u32, P0 (impl parameter), () and constructors L1<_>, "
+                "U1<_>, F1<_>, (_,), (_, _); quick: depth <= 1 / leaf x depth-1 pairs / leaf triples; local traits over leaf tuples. Random stream: "
+                "impls over the whole pool (F2, LF1, U2, 1-3-tuples, six scalars, two parameters), depth <= 3, 1/8 local trait. Each impl is checked by "
+                "the real orphan check four times (SLG and recursive solver, at the default size limits and with the limit lifted); request lines are "
+                "built from the LOWERED Program (flags of every struct and trait, the impl's trait reference), not from the generator. Second stream: "
+                "the domain goals IsLocal / IsUpstream / IsFullyVisible / DownstreamType (T) as `forall<P0,P1> { Pred(T) }` on every type of depth <= 2 "
+                "(quick <= 1) plus random ones, both solvers. Corpus first. Sharded over 12 child processes. Non-trivial = impl of a remote trait, or "
+                "any auxiliary goal; distinct = distinct request lines",
+        "technique": "Lean 4 theorems relating a clause-by-clause model of the orphan program clauses (least fixed point + resolution) to a spec written "
+                     "from the property's sentence + exhaustive/differential correspondence with perform_orphan_check under both solvers + "
+                     "independent evaluation of the sentence in Rust against the real verdicts",
+        "claim": "orphan_iff_spec is proved at full strength for the code as repaired (F5): for every program (any #[upstream]/#[fundamental] flags), every "
+                 "number of type arguments and every type built from structs, scalars, tuples and impl parameters of any size, the clauses chalk generates "
+                 "(match_ty, AdtDatum / TraitDatum::to_program_clauses) derive forall<..>{LocalImplAllowed(..)} iff the trait is local or some argument is "
+                 "local looking through fundamental constructors and no earlier argument mentions an impl parameter. provable_iff_derivable: the "
+                 "resolution procedure the driver runs decides that least fixed point. isFullyVisible_iff / isLocal_iff / isUpstream_iff / "
+                 "downstreamType_never characterise each auxiliary predicate. On the code before the repair the statement is refuted by a "
+                 "machine-checked witness (legacy_rejects_f5, legacy_orphan_iff_spec_false) and legacy_orphan_iff_spec_partial holds for arguments built "
+                 "from structs and parameters only. The model's verdict is compared with the real orphan check on every run (exhaustively over the "
+                 "tables above in the thorough tier), exactly, for both solvers.",
+        "note": "F5 (built-in types not IsFullyVisible: `impl Remote<Local> for u32` rejected) reproduced by this harness on the unchanged tree (the "
+                "legacy model agreed with the old code on all cases), repaired in /repo (commit 31b536a, status fixed), regression inputs in corpus/C20. "
+                "Open findings reported as KNOWN-FINDING: F5b (IsUpstream not derivable for built-in types; invisible to the orphan check, makes the "
+                "overlap check accept `impl<T> Local for T where T: Remote` + `impl Local for u32`; repair entangled with the compatible-mode rule being "
+                "generated for local traits) and F18 (beyond the solver's max_size the closed orphan goal is answered Ambiguous and "
+                "perform_orphan_check accepts: wrong acceptance of impls with large types at the default limits). Because of F18 the model is compared "
+                "with the default-limit runs only on the tables (all types below the limits) and with the limit-lifted runs everywhere; default-limit "
+                "runs are always judged against the sentence. Trusted: Lean kernel; fidelity of the clause model (differential, exhaustive on the tables); "
+                "the harness's reading of flags and trait references off the lowered Program; the solvers (only their verdicts on these ground goals "
+                "are used). The model has one constructor for an impl parameter and the placeholder replacing it; #[fundamental] structs without "
+                "parameters (chalk asserts) are outside the fragment; refs, raw pointers, arrays, slices, fn pointers are outside the property's quantifier "
+                "and still get no IsFullyVisible clause.",
+        "correspondence": "Orphan.provable over Orphan.clausesFor (lean/ChalkModel/Orphan.lean) vs chalk_solve::coherence::orphan::perform_orphan_check / "
+                          "the orphan_check query (SLG and recursive solver) and vs Solver::solve on the auxiliary domain goals",
+        "explanation": "thorough tier: complete enumeration of impls of a remote trait with 1 argument of depth <= 2 and 2-3 arguments of depth <= 1 over the "
+                       "stated constructors; the theorems cover all sizes",
+        "timeout": 3600,
+    },
+    "C08": {
+        "level": "proof",
+        "rule": "generated .chalk programs: the five lang-item traits (#[lang(sized)] trait Sized etc.), `trait Obj` (for dyn), `fn fd0();`, 2-5 structs/enums "
+                "A0.. with 0-2 type parameters and 0-3 fields per variant (field types of depth <= 2 over parameters, scalars, other ADTs, tuples, arrays, "
+                "slices, str, dyn, references, raw pointers, fn pointers, !, fn items; 1/4 of the ADTs may mention themselves and later ADTs - recursive and "
+                "mutually recursive declarations - but then only applied to leaves, so that no declaration cycle makes types grow: polymorphic recursion "
+                "is C09's subject), 0-5 explicit impls (Copy/Clone/Sized/Tuple for scalars; `impl<P..> Tr for Ak<P..> where Pi: Tr'` with optional "
+                "conditions on compound types; concrete instances `impl Tr for Ak<u8>`; `impl<T> Tr for *const T`, `for &'static T`; blanket "
+                "`impl<T> Clone for T where T: Copy`; impls for !, str, ()). 10 closed goals `T: Trait` per program, T of depth <= 4 over all thirteen "
+                "type constructors (1/6 bare leaves / ADTs), traits weighted Sized 5 : Copy 5 : Clone 4 : Tuple 1 : FnPtr 1. Each goal goes to fresh "
+                "instances of both solvers, with the size limit lifted (compared with the model, exactly: yes / no / ambig) and at the default "
+                "limits (judged against the rules). Requests are built from the LOWERED Program and Goal (ADT kinds and fields, impl headers and "
+                "where-clauses, goal type as first-order terms). Corpus seeds first. Sharded over 12 child processes. Non-trivial = every goal; "
+                "distinct = distinct request lines",
+        "technique": "Lean 4 theorems: clause-by-clause model of add_builtin_program_clauses / sized.rs / copy.rs / clone.rs / tuple.rs / last_field_of_struct / "
+                     "impl clauses with least-fixed-point meaning = rule-by-rule inductive spec; proved-sound decision procedure (resolution with ancestor "
+                     "check) + differential correspondence with both real solvers + independent evaluation of the rules in Rust",
+        "claim": "builtinClauses_iff_spec is proved at full strength: for every program (any constructor table, any struct/enum/union declarations - "
+                 "generic, recursive -, any list of explicit impls - generic, overlapping, recursive) and every type term of any size, the atoms "
+                 "derivable (least fixed point) from the clause instances chalk generates for Sized/Copy/Clone/Tuple/FnPtr are exactly those the "
+                 "rules grant (BuiltinHolds: scalars, refs, raw pointers, arrays, fn pointers, fn items, ! Sized; tuples iff last element; structs iff "
+                 "no fields or last field; enums/unions always; str, slices, dyn never; Copy/Clone for tuples and arrays iff elements, fn pointers "
+                 "and fn items always, everything else only via impls; Tuple = tuples; FnPtr = fn pointers; plus explicit impls). The property's "
+                 "sentences are corollaries (unsized_never_sized, tuple_copy_iff_elements, array_copy_iff_element, struct_sized_iff_last_field, "
+                 "tuple_trait_iff, fnPtr_trait_iff, scalar_copy_only_by_impl). decide_yes / decide_no: the driver's decision procedure is sound in both "
+                 "directions (decide_no and clausesFor_complete under the decidable hypothesis implParamsInHeader = rustc's E0207, without which an "
+                 "impl clause has an existential variable). The model's verdict is compared exactly with both real solvers on every run.",
+        "note": "Open finding F18 (KNOWN-FINDING): at its default max_size 10 the SLG solver answers Ambiguous for closed built-in goals over types with "
+                "more than 10 nodes; with the limit lifted both solvers, and the recursive solver at its default limit, agree with the rules on every "
+                "generated goal. Because of it the model is compared with the limit-lifted runs; default-limit runs are judged against the rules. "
+                "Trusted: Lean kernel; fidelity of the clause model (differential only); the harness's translation of the lowered Program/Goal into "
+                "terms (lifetimes, array lengths, fn-pointer ABI/binders dropped: none of the modelled clauses reads them; all references are 'static); "
+                "the generator never produces unions (no syntax), closures, coroutines, foreign/opaque/associated types, inference variables - the "
+                "arms of sized.rs/copy.rs for those are not modelled. In chalk scalars, references, raw pointers and ! are NOT Copy/Clone by a "
+                "built-in clause (copy.rs: `these impls are in libcore`); the spec follows that reading (scalar_copy_only_by_impl).",
+        "correspondence": "Builtin.decideGoal over Builtin.clausesFor (lean/ChalkModel/Builtin.lean) vs Solver::solve (SLG, recursive) on closed goals `T: Sized|Copy|Clone|Tuple|FnPtr`",
+        "timeout": 3600,
     },
 }
